@@ -44,6 +44,23 @@ pub(crate) const APPLICATION_JSON: HeaderValue = HeaderValue::from_static("appli
 pub(crate) const APPLICATION_OCTET_STREAM: HeaderValue =
     HeaderValue::from_static("application/octet-stream");
 
+#[cfg(conjure_rust_verif)]
+thread_local! {
+    static VERIF_BODY_EVENTS: std::cell::RefCell<Vec<(&'static str, usize, usize)>> =
+        const { std::cell::RefCell::new(Vec::new()) };
+}
+
+#[cfg(conjure_rust_verif)]
+fn verif_body_event(step: &'static str, chunk_len: usize, buf_len: usize) {
+    VERIF_BODY_EVENTS.with(|e| e.borrow_mut().push((step, chunk_len, buf_len)));
+}
+
+/// Drains the (step, chunk length, buffered length) events recorded by `read_body`/`async_read_body` on this thread.
+#[cfg(conjure_rust_verif)]
+pub fn verif_take_body_events() -> Vec<(&'static str, usize, usize)> {
+    VERIF_BODY_EVENTS.with(|e| e.borrow_mut().drain(..).collect())
+}
+
 // slightly nontrivial to avoid a copy for single-chunk bodies
 pub fn read_body<I>(mut body: I, limit: Option<usize>) -> Result<Bytes, Error>
 where
@@ -51,8 +68,16 @@ where
 {
     let first = match body.next().transpose()? {
         Some(bytes) => bytes,
+        #[cfg(conjure_rust_verif)]
+        None => {
+            verif_body_event("none", 0, 0);
+            return Ok(Bytes::new());
+        }
+        #[cfg(not(conjure_rust_verif))]
         None => return Ok(Bytes::new()),
     };
+    #[cfg(conjure_rust_verif)]
+    verif_body_event("first", first.len(), first.len());
     check_limit(&first, limit)?;
 
     let mut buf = BytesMut::new();
@@ -61,13 +86,23 @@ where
             buf.reserve(first.len() + second.len());
             buf.extend_from_slice(&first);
             buf.extend_from_slice(&second);
+            #[cfg(conjure_rust_verif)]
+            verif_body_event("second", second.len(), buf.len());
         }
+        #[cfg(conjure_rust_verif)]
+        None => {
+            verif_body_event("single", 0, first.len());
+            return Ok(first);
+        }
+        #[cfg(not(conjure_rust_verif))]
         None => return Ok(first),
     };
     check_limit(&buf, limit)?;
 
     for bytes in body {
         buf.extend_from_slice(&bytes?);
+        #[cfg(conjure_rust_verif)]
+        verif_body_event("more", 0, buf.len());
         check_limit(&buf, limit)?;
     }
 
@@ -82,8 +117,16 @@ where
 
     let first = match body.try_next().await? {
         Some(bytes) => bytes,
+        #[cfg(conjure_rust_verif)]
+        None => {
+            verif_body_event("none", 0, 0);
+            return Ok(Bytes::new());
+        }
+        #[cfg(not(conjure_rust_verif))]
         None => return Ok(Bytes::new()),
     };
+    #[cfg(conjure_rust_verif)]
+    verif_body_event("first", first.len(), first.len());
     check_limit(&first, limit)?;
 
     let mut buf = BytesMut::new();
@@ -92,13 +135,23 @@ where
             buf.reserve(first.len() + second.len());
             buf.extend_from_slice(&first);
             buf.extend_from_slice(&second);
+            #[cfg(conjure_rust_verif)]
+            verif_body_event("second", second.len(), buf.len());
         }
+        #[cfg(conjure_rust_verif)]
+        None => {
+            verif_body_event("single", 0, first.len());
+            return Ok(first);
+        }
+        #[cfg(not(conjure_rust_verif))]
         None => return Ok(first),
     }
     check_limit(&buf, limit)?;
 
     while let Some(bytes) = body.try_next().await? {
         buf.extend_from_slice(&bytes);
+        #[cfg(conjure_rust_verif)]
+        verif_body_event("more", bytes.len(), buf.len());
         check_limit(&buf, limit)?;
     }
 
